@@ -42,11 +42,13 @@ CONSTANTS
   Msgs,        \* [Side -> Seq([ch |-> Nat, n |-> Nat])] messages each side's application submits
   InitTsnA, InitTsnB,   \* sets of initial TSNs
   MaxRtx, MaxT1, Win,
+  Initiators,  \* sides that send INIT on their own ({"A"}: client / server; {"A", "B"}: INIT collision)
   RtxBurst,    \* chunks a T3 expiry marks for retransmission (the rest is only re-timed); the code's RETRANSMIT_BURST
   Rwnd,        \* receive window in chunks (buffered out-of-order chunks use it up); a large value switches it off
   DelaySack,   \* TRUE: an in-order DATA chunk may be acknowledged later (delayed-SACK timer)
   \* Deviations (declared in SctpOps): subset of {"SetupOverwrite", "DataBeforeEstablished",
-  \*   "FwdPlainCompare", "AdvPointWrongSpace", "FwdNotRetransmitted", "PartialAbandon", "StaleSackUpdatesRwnd", "T3OnlyInFlightOrMarked"}
+  \*   "FwdPlainCompare", "AdvPointWrongSpace", "FwdNotRetransmitted", "PartialAbandon", "StaleSackUpdatesRwnd", "T3OnlyInFlightOrMarked",
+  \*   "CollisionReopens", "CookieAckDroppedWhenConnected"}
   NetMode, Budget,
   Props        \* properties whose rules are switched on
 
@@ -150,9 +152,9 @@ PrSame == UNCHANGED <<ackPt, advPt, fwd>>
 Init ==
   /\ st = [s \in Side |-> "New"]
   /\ t1 = [s \in Side |-> "None"]
-  /\ t1cnt = 0
+  /\ t1cnt = [s \in Side |-> 0]
   /\ itsn = [s \in Side |-> M]
-  /\ answered = FALSE
+  /\ answered = [s \in Side |-> FALSE]
   /\ next = [s \in Side |-> 0]
   /\ rx = [s \in Side |-> EmptyRx(NCh)]
   /\ sentQ = [s \in Side |-> {}]
@@ -187,76 +189,96 @@ Clr(r) == [r EXCEPT !.out = <<>>]
 
 ---------------------------------------------------------------------------
 (* Association set-up                                                      *)
-SendInit ==
-  /\ st["A"] = "New"
-  /\ \E t \in InitTsnA :
-       /\ itsn' = [itsn EXCEPT !["A"] = t]
-       /\ next' = [next EXCEPT !["A"] = t]
-       /\ NetSend("A", WithW(Pkt("INIT", "A", t, NoFrag, {}), Rwnd))
-  /\ st' = [st EXCEPT !["A"] = "Connecting"]
-  /\ t1' = [t1 EXCEPT !["A"] = "Init"]
-  /\ ackPt' = [ackPt EXCEPT !["A"] = Dec(next'["A"], M)]
-  /\ advPt' = [advPt EXCEPT !["A"] = Dec(next'["A"], M)]
+\* Both ends may start the association (INIT collision, RFC 4960 5.2.1: browsers do); Initiators says who does.
+InitTsnOf(s) == IF s = "A" THEN InitTsnA ELSE InitTsnB
+
+SendInit(s) ==
+  /\ s \in Initiators /\ st[s] = "New"
+  /\ (IF itsn[s] # M
+      THEN \* the peer's INIT was answered first: the tag / initial TSN of that INIT-ACK are this end's
+           /\ NetSend(s, WithW(Pkt("INIT", s, itsn[s], NoFrag, {}), Rwnd))
+           /\ UNCHANGED <<itsn, next, ackPt, advPt>>
+      ELSE \E t \in InitTsnOf(s) :
+           /\ itsn' = [itsn EXCEPT ![s] = t]
+           /\ next' = [next EXCEPT ![s] = t]
+           /\ ackPt' = [ackPt EXCEPT ![s] = Dec(t, M)]
+           /\ advPt' = [advPt EXCEPT ![s] = Dec(t, M)]
+           /\ NetSend(s, WithW(Pkt("INIT", s, t, NoFrag, {}), Rwnd)))
+  /\ st' = [st EXCEPT ![s] = "Connecting"]
+  /\ t1' = [t1 EXCEPT ![s] = "Init"]
   /\ UNCHANGED <<t1cnt, answered, rx, sentQ, outQ, sub, ssnOut, deliv, opens, fwd>> /\ NoFault
 
-T1Expire ==
+T1Expire(s) ==
   /\ NetMode = "fifo"            \* in "set" mode the packet is still deliverable: nothing new
   /\ TimersMayFire
-  /\ t1["A"] # "None" /\ t1cnt < MaxT1
-  /\ t1cnt' = t1cnt + 1
-  /\ (IF t1["A"] = "Init"
-      THEN NetSend("A", WithW(Pkt("INIT", "A", itsn["A"], NoFrag, {}), Rwnd))
-      ELSE NetSend("A", Pkt("CECHO", "A", 0, NoFrag, {})))
+  /\ t1[s] # "None" /\ t1cnt[s] < MaxT1
+  /\ t1cnt' = [t1cnt EXCEPT ![s] = @ + 1]
+  /\ (IF t1[s] = "Init"
+      THEN NetSend(s, WithW(Pkt("INIT", s, itsn[s], NoFrag, {}), Rwnd))
+      ELSE NetSend(s, Pkt("CECHO", s, 0, NoFrag, {})))
   /\ UNCHANGED <<st, t1, itsn, answered, next, rx, sentQ, outQ, sub, ssnOut, deliv, opens>> /\ PrSame /\ NoFault
 
-RecvInit(p) ==
-  /\ p \in Avail("B") /\ p.k = "INIT"
-  /\ (IF answered /\ "SetupOverwrite" \notin Deviations
+RecvInit(s, p) ==
+  /\ p \in Avail(s) /\ p.k = "INIT"
+  /\ (IF answered[s] /\ "SetupOverwrite" \notin Deviations
       THEN \* RFC 4960 5.2.2: answer again, leave the TCB alone
-           /\ NetRecv("B", p, <<WithW(Pkt("IACK", "B", itsn["B"], NoFrag, {}), Rwnd)>>)
+           /\ NetRecv(s, p, <<WithW(Pkt("IACK", s, itsn[s], NoFrag, {}), Rwnd)>>)
            /\ UNCHANGED <<itsn, next, rx, answered, ackPt, advPt, peerW>>
-      ELSE \E t \in InitTsnB :
-           /\ ackPt' = [ackPt EXCEPT !["B"] = Dec(t, M)]
-           /\ advPt' = [advPt EXCEPT !["B"] = Dec(t, M)]
-           /\ itsn' = [itsn EXCEPT !["B"] = t]
-           /\ next' = [next EXCEPT !["B"] = t]
-           /\ rx' = [rx EXCEPT !["B"].cum = Dec(p.tsn, M), !["B"].has = TRUE]
-           /\ answered' = TRUE
-           /\ peerW' = [peerW EXCEPT !["B"] = p.w]
-           /\ NetRecv("B", p, <<WithW(Pkt("IACK", "B", t, NoFrag, {}), Rwnd)>>))
+      ELSE \* an INIT that crosses this end's own handshake is answered with the initial TSN (and tag) its own
+           \* INIT carries (5.2.1); otherwise a fresh one is chosen
+           \E t \in (IF itsn[s] # M /\ "SetupOverwrite" \notin Deviations THEN {itsn[s]} ELSE InitTsnOf(s)) :
+           /\ ackPt' = [ackPt EXCEPT ![s] = IF itsn[s] = t THEN @ ELSE Dec(t, M)]
+           /\ advPt' = [advPt EXCEPT ![s] = IF itsn[s] = t THEN @ ELSE Dec(t, M)]
+           /\ itsn' = [itsn EXCEPT ![s] = t]
+           /\ next' = [next EXCEPT ![s] = IF itsn[s] = t THEN @ ELSE t]
+           \* (the peer's initial TSN may be known already from its INIT-ACK: then nothing is rewound)
+           /\ rx' = [rx EXCEPT ![s].cum = IF rx[s].has /\ "SetupOverwrite" \notin Deviations THEN @ ELSE Dec(p.tsn, M),
+                               ![s].has = TRUE]
+           /\ answered' = [answered EXCEPT ![s] = TRUE]
+           /\ peerW' = [peerW EXCEPT ![s] = p.w]
+           /\ NetRecv(s, p, <<WithW(Pkt("IACK", s, t, NoFrag, {}), Rwnd)>>))
   /\ UNCHANGED <<st, t1, t1cnt, sentQ, outQ, sub, ssnOut, deliv, opens, fwd>> /\ NoFaultW /\ UNCHANGED <<since, sackDue>>
 
-RecvInitAck(p) ==
-  /\ p \in Avail("A") /\ p.k = "IACK"
-  /\ (IF t1["A"] = "Init" \/ "SetupOverwrite" \in Deviations
-      THEN /\ rx' = [rx EXCEPT !["A"].cum = Dec(p.tsn, M), !["A"].has = TRUE]
-           /\ t1' = [t1 EXCEPT !["A"] = "Cookie"]
-           /\ peerW' = [peerW EXCEPT !["A"] = p.w]
-           /\ t1cnt' = 0                                   \* t1_start resets the failure count
-           /\ NetRecv("A", p, <<Pkt("CECHO", "A", 0, NoFrag, {})>>)
+RecvInitAck(s, p) ==
+  /\ p \in Avail(s) /\ p.k = "IACK"
+  /\ (IF t1[s] = "Init" \/ "SetupOverwrite" \in Deviations
+      THEN /\ rx' = [rx EXCEPT ![s].cum = IF rx[s].has /\ "SetupOverwrite" \notin Deviations THEN @ ELSE Dec(p.tsn, M),
+                               ![s].has = TRUE]
+           /\ t1' = [t1 EXCEPT ![s] = "Cookie"]
+           /\ peerW' = [peerW EXCEPT ![s] = p.w]
+           /\ t1cnt' = [t1cnt EXCEPT ![s] = 0]               \* t1_start resets the failure count
+           /\ NetRecv(s, p, <<Pkt("CECHO", s, 0, NoFrag, {})>>)
       ELSE \* RFC 4960 5.2.3: not in COOKIE-WAIT, discard
-           /\ NetRecv("A", p, <<>>)
+           /\ NetRecv(s, p, <<>>)
            /\ UNCHANGED <<rx, t1, t1cnt, peerW>>)
   /\ UNCHANGED <<st, itsn, answered, next, sentQ, outQ, sub, ssnOut, deliv, opens>> /\ PrSame /\ NoFaultW /\ UNCHANGED <<since, sackDue>>
 
-RecvCookieEcho(p) ==
-  /\ p \in Avail("B") /\ p.k = "CECHO"
-  /\ answered                                  \* a cookie exists only after an INIT-ACK
-  /\ (IF st["B"] = "Connected" /\ "SetupOverwrite" \notin Deviations
+\* Channels are opened on the transition to Connected - whichever of the two handshakes of a collision
+\* completes first.  The pinned code opened again when the second one completed: deviation "CollisionReopens".
+RecvCookieEcho(s, p) ==
+  /\ p \in Avail(s) /\ p.k = "CECHO"
+  /\ answered[s]                               \* a cookie exists only after an INIT-ACK
+  /\ (IF st[s] = "Connected" /\ "SetupOverwrite" \notin Deviations /\ "CollisionReopens" \notin Deviations
       THEN UNCHANGED <<st, opens>>             \* RFC 4960 5.2.4 case D: only acknowledge
-      ELSE /\ st' = [st EXCEPT !["B"] = "Connected"]
-           /\ opens' = [opens EXCEPT !["B"] = @ + 1])
-  /\ NetRecv("B", p, <<Pkt("CACK", "B", 0, NoFrag, {})>>)
+      ELSE /\ st' = [st EXCEPT ![s] = "Connected"]
+           /\ opens' = [opens EXCEPT ![s] = @ + 1])
+  /\ NetRecv(s, p, <<Pkt("CACK", s, 0, NoFrag, {})>>)
   /\ UNCHANGED <<t1, t1cnt, itsn, answered, next, rx, sentQ, outQ, sub, ssnOut, deliv>> /\ PrSame /\ NoFault
 
-RecvCookieAck(p) ==
-  /\ p \in Avail("A") /\ p.k = "CACK"
-  /\ (IF t1["A"] = "Cookie" \/ "SetupOverwrite" \in Deviations
-      THEN /\ st' = [st EXCEPT !["A"] = "Connected"]
-           /\ opens' = [opens EXCEPT !["A"] = @ + 1]
-           /\ t1' = [t1 EXCEPT !["A"] = "None"]
+\* The COOKIE-ACK stops the T1 timer of this end's COOKIE-ECHO, also when the association is already up.
+\* A variant that discards it once Connected leaves the timer running: deviation "CookieAckDroppedWhenConnected".
+RecvCookieAck(s, p) ==
+  /\ p \in Avail(s) /\ p.k = "CACK"
+  /\ (IF "CookieAckDroppedWhenConnected" \in Deviations /\ st[s] = "Connected"
+      THEN UNCHANGED <<st, opens, t1>>
+      ELSE IF t1[s] = "Cookie" \/ "SetupOverwrite" \in Deviations
+      THEN /\ t1' = [t1 EXCEPT ![s] = "None"]
+           /\ (IF st[s] = "Connected" /\ "SetupOverwrite" \notin Deviations /\ "CollisionReopens" \notin Deviations
+               THEN UNCHANGED <<st, opens>>
+               ELSE /\ st' = [st EXCEPT ![s] = "Connected"]
+                    /\ opens' = [opens EXCEPT ![s] = @ + 1])
       ELSE UNCHANGED <<st, opens, t1>>)        \* RFC 4960 5.2.5: discard
-  /\ NetRecv("A", p, <<>>)
+  /\ NetRecv(s, p, <<>>)
   /\ UNCHANGED <<t1cnt, itsn, answered, next, rx, sentQ, outQ, sub, ssnOut, deliv>> /\ PrSame /\ NoFault
 
 ---------------------------------------------------------------------------
@@ -399,7 +421,7 @@ SackTimer(s) ==
 \* state: deviation "DataBeforeEstablished".
 RecvData(s, p) ==
   /\ p \in Avail(s) /\ p.k = "DATA"
-  /\ LET implicitAck == st[s] # "Connected" /\ s = "A" /\ t1["A"] = "Cookie"
+  /\ LET implicitAck == st[s] # "Connected" /\ t1[s] = "Cookie"
                          /\ "DataBeforeEstablished" \notin Deviations
          accept == st[s] = "Connected" \/ implicitAck \/ "DataBeforeEstablished" \in Deviations
      IN IF accept /\ rx[s].has
@@ -518,13 +540,12 @@ OutageEnds(d) ==
   /\ UNCHANGED <<net, wire, held, lastDel, cnt, faults, budget, hole>> /\ ProtoSame
 
 Proto ==
-  \/ SendInit \/ T1Expire
+  \/ \E s \in Side : SendInit(s) \/ T1Expire(s)
   \/ \E d \in Side : HoleDrop(d) \/ OutageEnds(d)
   \/ \E s \in Side : AppSend(s) \/ TransmitNew(s) \/ T3Expire(s) \/ Rtx(s) \/ Abandon(s) \/ Advance(s) \/ ResendFwd(s) \/ SackTimer(s)
   \/ \E s \in Side : \E p \in Avail(s) :
         \/ RecvData(s, p) \/ RecvSack(s, p) \/ RecvFwd(s, p)
-        \/ (s = "B" /\ (RecvInit(p) \/ RecvCookieEcho(p)))
-        \/ (s = "A" /\ (RecvInitAck(p) \/ RecvCookieAck(p)))
+        \/ RecvInit(s, p) \/ RecvCookieEcho(s, p) \/ RecvInitAck(s, p) \/ RecvCookieAck(s, p)
 
 Next == Proto \/ Fault
 Spec == Init /\ [][Next]_vars
@@ -591,4 +612,6 @@ SetupIdempotent ==
 AllDelivered == \A s \in Side : \A c \in RelOrd :
                    sub[Peer(s)] = Len(Msgs[Peer(s)]) /\ DelivIds(s, c) = SubIds(Peer(s), c)
 EventuallyDelivered == <>[]AllDelivered
+\* the T1 timer does not run for ever on an association that is up (it would close it: INIT_TIMEOUT)
+T1Stops == <>[](\A s \in Side : st[s] = "Connected" => t1[s] = "None")
 =============================================================================
